@@ -41,8 +41,11 @@ def gen_cases(rng, thorough):
         s(gen_skew(rng), 'skew')
     for _ in range(60 * scale):
         cases.append(gen_files_case(rng))
-    for _ in range(330 * scale):
+    for _ in range(200 * scale):
         cases.append(gen_repo_case(rng))
+    cases.extend(exhaustive_repo_cases())
+    for _ in range(40 * scale):
+        s(gen_embedded(rng), 'embedded')
     for _ in range(25 * (4 if thorough else 1)):
         m, how = L.gen_mutant(rng)
         cases.append({'kind': 'mock', 'mof': L.QUALS + m, 'tag': 'mock:' + how})
@@ -122,6 +125,47 @@ def gen_files_case(rng):
 
 
 CODES = list(range(1, 29))
+
+
+def exhaustive_repo_cases():
+    """every operation the compiler uses rejected with every CIM status code 1..28: at the first call and at the
+    retry call that follows a repairable first answer"""
+    out = []
+
+    def add(which, script):
+        out.append({'kind': 'repo', 'which': which, 'script': script, 'tag': 'repo:' + which})
+    for c in CODES:
+        add('class', {'CreateClass': [c]})
+        add('class_qual', {'CreateClass': [4, c]})
+        add('class', {'CreateClass': [11], 'ModifyClass': [c]})
+        add('class_super', {'CreateClass': [None, c]})
+        add('inst', {'CreateInstance': [c]})
+        add('inst', {'CreateInstance': [11], 'ModifyInstance': [c]})
+        add('inst', {'CreateInstance': [11], 'GetClass': [None, c]})
+        add('inst_nokey', {'CreateInstance': [c]})
+        add('inst', {'GetClass': [c]})
+        add('inst_only', {'GetClass': [c]})
+        add('qualdecl', {'SetQualifier': [c]})
+        add('qualdecl', {'SetQualifier': [7, c]})
+        add('qualdecl', {'SetQualifier': [7], 'DeleteQualifier': [c]})
+        add('class_unknown_qual', {'EnumerateQualifiers': [c]})
+    return out
+
+
+EMB_BAD = ['garbage', 'instance of Nope { k = 1; };', 'class X { uint8 p; };', 'instance of TST_A { nope = 1; };',
+           'instance of TST_A { k = \\"x\\"; }', '', ' ', '@', 'instance of TST_A { k = 5; };',
+           'Qualifier Q : boolean, Scope(any);', 'instance of TST_A { k = \\"a\\"; }; instance of', '/* x']
+
+
+def gen_embedded(rng):
+    """failures INSIDE compile_embedded_value (the value of an EmbeddedInstance property is compiled by a nested parse)"""
+    bad = rng.choice(EMB_BAD)
+    if rng.random() < 0.4:
+        m, _ = L.gen_mutant(rng, 'instance of TST_A { k = "in"; p = 3; };')
+        bad = m.replace('\\', '\\\\').replace('"', '\\"').replace('\n', ' ').replace('\r', ' ')
+    val = '"%s"' % bad if rng.random() < 0.8 else '{"%s", "instance of TST_A { k = \\"z\\"; };"}' % bad
+    return (L.QUALS + L.VALID[0] + '\n' + 'class TST_E%s { [Key] string k; [EmbeddedInstance("TST_A")] string e%s; };\n'
+            'instance of TST_E%s { k = "e"; e = %s; };\n') % (('', '', '', val) if val[0] == '"' else ('A', '[]', 'A', val))
 
 
 def gen_repo_case(rng):
@@ -246,19 +290,21 @@ def classify_leak(out, rerun, calls=None):
     return 'other'
 
 
-def run_one(case, comp_plain, stub, comp_stub, wd, standalone=False):
+def run_one(case, comp_plain, stub, comp_stub, wd, classify=True):
     """run one case on the real code; returns the observation dict"""
     import pywbem
     kind = case['kind']
     texts = {}
     obs = {}
-    rerun = None
+
+    def rerun():
+        st = L.make_stub()
+        return run_one(case, L.new_compiler(), st, L.new_compiler(handle=st), wd, classify=False)['out']
     if kind == 'string':
         mof = case['mof']
         texts[None] = mof
         comp = comp_plain
         obs['out'] = L.outcome_of(lambda: comp.compile_string(mof, case.get('ns')))
-        rerun = lambda: L.outcome_of(lambda: L.new_compiler().compile_string(mof, case.get('ns')))   # noqa: E731
     elif kind == 'files':
         d = wd.case_dir(case['files'])
         search = [os.path.join(d, x) for x in case['search']]
@@ -274,8 +320,6 @@ def run_one(case, comp_plain, stub, comp_stub, wd, standalone=False):
             # compile_string with a filename: includes are resolved relative to it
             obs['out'] = L.outcome_of(lambda: comp.compile_string(mof, None, filename=main))
         obs['dir'] = d
-        if case['via'] == 'file':
-            rerun = lambda: L.outcome_of(lambda: L.new_compiler(search_paths=search).compile_file(main, None))   # noqa: E731
     elif kind == 'repo':
         mof = L.REPO_MOFS[case['which']]
         texts[None] = mof
@@ -293,12 +337,11 @@ def run_one(case, comp_plain, stub, comp_stub, wd, standalone=False):
         texts[None] = mof
         conn = pywbem_mock.FakedWBEMConnection()
         obs['out'] = L.outcome_of(lambda: conn.compile_mof_string(mof))
-        rerun = lambda: L.outcome_of(lambda: pywbem_mock.FakedWBEMConnection().compile_mof_string(mof))   # noqa: E731
         comp = None
     out = obs['out']
     if out.get('mof'):
         obs['pos'] = L.position_verdict(out, texts)
-    elif not out.get('ok') and not out.get('timeout'):
+    elif not out.get('ok') and not out.get('timeout') and classify:
         obs['cause'] = classify_leak(out, rerun, obs.get('calls'))
     # reuse: the known-good MOF on the SAME compiler object, compared with a fresh compiler
     if comp is not None:
